@@ -174,7 +174,7 @@ def build(tier):
                            "individual": C06.make_agent(layout), "optimizer": (lambda ex, st, l: None)},
                    requires=[], frame_fields=False,
                    ensures=[f"opts_post_{layout.replace('-', '_')}(individual)"], replay="c02:coherent")
-    P.native.append(dict(name="coherent", adapter="c02:coherent", payload={"mode": "search"},
+    P.native.append(dict(name="coherent", adapter="c02:coherent", thorough_only=True, payload={"mode": "search"},
                          bound="DQN, DDPG, TD3 (share_encoders=False), 3 seeds x 3 generations of architecture / parameter / activation / rl_hp mutations: "
                                "optimizers hold the current parameters and lr, targets shadow their networks, critics follow the policy, learn moves parameters"))
     P.trusted += ["network mocks: a network records the (method, kwargs) it is called with; the policy's mutation may fall back and returns its arguments",
